@@ -233,6 +233,10 @@ func checkC09(run *mon.Run, rng *mon.Rand, thorough bool) {
 				e.L2.Fund(u.Addr, sdk.NewCoin(d, math.NewInt(1_000_000)))
 			}
 		}
+		// a native token normally has bank metadata (display name etc.); that must not make it look bridged
+		e.L2.BK.SetDenomMetaData(e.L2.Ctx, banktypes.Metadata{Base: "unative", Display: "native", Name: "native gas token", Symbol: "NATIVE",
+			DenomUnits: []*banktypes.DenomUnit{{Denom: "unative", Exponent: 0}, {Denom: "native", Exponent: 6}}})
+		e.L2.Speculate = r.Bool()
 		for s := 0; s < steps && !run.TooMany(); s++ {
 			switch x := r.Intn(100); {
 			case x < 35:
